@@ -7,8 +7,8 @@
 //
 // Facts read:
 //   - h2/relay.go: const outputChannelSize = <int lit>; newRelay makes `output`
-//     with exactly that capacity; relayFrames makes `writerErr` and `frameReady`
-//     with capacity 1 and `readerDone` unbuffered
+//     with exactly that capacity; the capacities relayFrames gives `readerDone`,
+//     `writerErr` and `frameReady` (the repaired relay has 0, 1, 1)
 //   - h2/h2.go (Config.Proxy): is there a top-level `defer <conn>.Close()` on the
 //     connection returned by tls.Dial, placed before the forwardPreface call
 //     (src_closes_upstream); does Proxy close a channel that relayFrames' select
@@ -16,7 +16,11 @@
 //   - h2/relay.go (emitEligibleFrames): is the send into `output` a case of a
 //     select with another receive case (src_emit_abortable) or a bare send
 //
-// It fails loudly (exit 1) when the expected shape is gone.
+// When an expected shape is gone it says so on stderr, still writes the file
+// with what it could read and `src_shape_ok := false` (Proofs_Tie.v then
+// does not compile: a broken tie) so that the model still builds and the
+// correspondence run and oracle search happen.  It exits 1 only when the
+// files do not parse or the functions themselves are gone.
 package main
 
 import (
@@ -28,11 +32,23 @@ import (
 	"os"
 	"path/filepath"
 	"strconv"
+	"strings"
 )
 
 func die(f string, a ...interface{}) {
 	fmt.Fprintf(os.Stderr, "gen_c10: "+f+"\n", a...)
 	os.Exit(1)
+}
+
+// problems are shape facts that were not found.  The translator still writes
+// the Gen file (with src_shape_ok := false and what it could read) so that the
+// model builds and the correspondence run happens; Proofs_Tie.v then fails.
+var problems []string
+
+func problem(f string, a ...interface{}) {
+	m := fmt.Sprintf(f, a...)
+	problems = append(problems, m)
+	fmt.Fprintln(os.Stderr, "gen_c10: "+m)
 }
 
 func parse(repo, rel string) *ast.File {
@@ -57,7 +73,7 @@ func funcDecl(f *ast.File, recv, name string) *ast.FuncDecl {
 		}
 	}
 	die("func (*%s).%s not found", recv, name)
-	return nil
+	return nil // unreachable: without the function there is nothing to model
 }
 
 func isCall(e ast.Expr, pkg, name string) (*ast.CallExpr, bool) {
@@ -133,10 +149,12 @@ func main() {
 		}
 	}
 	if capVal < 0 {
-		die("const outputChannelSize = <int literal> not found in h2/relay.go")
+		problem("const outputChannelSize = <int literal> not found in h2/relay.go")
+		capVal = 15
 	}
 	if capVal > 4096 {
-		die("outputChannelSize %d is beyond what the model represents in unary", capVal)
+		problem("outputChannelSize %d is beyond what the model represents in unary", capVal)
+		capVal = 4096
 	}
 
 	// --- newRelay: output: make(chan queuedFrame, outputChannelSize)
@@ -156,7 +174,7 @@ func main() {
 		return true
 	})
 	if !foundOut {
-		die("newRelay no longer makes `output` with capacity outputChannelSize")
+		problem("newRelay no longer makes `output` with capacity outputChannelSize")
 	}
 
 	// --- relayFrames: channel capacities and the select's receive cases
@@ -182,10 +200,15 @@ func main() {
 		}
 		return true
 	})
-	if caps["readerDone"] != "0" || caps["writerErr"] != "1" || caps["frameReady"] != "1" {
-		die("relayFrames channel capacities changed: readerDone=%q writerErr=%q frameReady=%q (model assumes 0,1,1)",
-			caps["readerDone"], caps["writerErr"], caps["frameReady"])
+	capOf := func(name string, dflt int) int {
+		v, err := strconv.Atoi(caps[name])
+		if err != nil || v < 0 || v > 64 {
+			problem("relayFrames: capacity of %s is not a small integer literal (%q)", name, caps[name])
+			return dflt
+		}
+		return v
 	}
+	readerDoneCap, writerErrCap, frameReadyCap := capOf("readerDone", 0), capOf("writerErr", 1), capOf("frameReady", 1)
 	var doneField string
 	sawClosing, sawFrameReady, sawWriterErr := false, false, false
 	ast.Inspect(rf.Body, func(n ast.Node) bool {
@@ -228,7 +251,7 @@ func main() {
 		return true
 	})
 	if !sawClosing || !sawFrameReady || !sawWriterErr {
-		die("relayFrames: the reader's select over frameReady / writerErr / closing was not found")
+		problem("relayFrames: the reader's select over frameReady / writerErr / closing was not found")
 	}
 
 	// --- Proxy: defer <dialled>.Close() before forwardPreface; close(<chan>) somewhere; relay.<doneField> assigned
@@ -261,10 +284,10 @@ func main() {
 		}
 	}
 	if dialled == "" {
-		die("Proxy: `<conn>, err := tls.Dial(...)` not found")
+		problem("Proxy: `<conn>, err := tls.Dial(...)` not found")
 	}
 	if !sawPreface {
-		die("Proxy: `if err := forwardPreface(...)` not found")
+		problem("Proxy: `if err := forwardPreface(...)` not found")
 	}
 	closesChan, assignsField, deferredInBoth := false, false, 0
 	ast.Inspect(px.Body, func(n ast.Node) bool {
@@ -332,7 +355,7 @@ func main() {
 		return true
 	})
 	if bare+guarded != 1 {
-		die("emitEligibleFrames: expected exactly one send into the output channel, found %d", bare+guarded)
+		problem("emitEligibleFrames: expected exactly one send into the output channel, found %d", bare+guarded)
 	}
 	abortable := guarded == 1 && doneSignal
 
@@ -349,7 +372,16 @@ func main() {
 		"(* a direction that ends closes a channel the other direction's select receives from *)\n" +
 		"Definition src_done_signal : bool := " + b(doneSignal) + ".\n" +
 		"(* emitEligibleFrames' send into `output` is a select case beside a receive from that channel *)\n" +
-		"Definition src_emit_abortable : bool := " + b(abortable) + ".\n"
+		"Definition src_emit_abortable : bool := " + b(abortable) + ".\n" +
+		"(* capacities of the channels made in relayFrames *)\n" +
+		"Definition reader_done_capacity : nat := " + strconv.Itoa(readerDoneCap) + ".\n" +
+		"Definition writer_err_capacity : nat := " + strconv.Itoa(writerErrCap) + ".\n" +
+		"Definition frame_ready_capacity : nat := " + strconv.Itoa(frameReadyCap) + ".\n" +
+		"(* every shape the translator looks for was found *)\n" +
+		"Definition src_shape_ok : bool := " + b(len(problems) == 0) + ".\n"
+	for _, m := range problems {
+		src += "(* NOT FOUND: " + strings.ReplaceAll(strings.ReplaceAll(m, "(*", "( *"), "*)", "* )") + " *)\n"
+	}
 	if err := os.WriteFile(filepath.Join(*out, "Gen_H2Const.v"), []byte(src), 0o644); err != nil {
 		die("%v", err)
 	}
